@@ -62,7 +62,7 @@ class OperEngine(c01.CallEngine):
     regs = ginm.gen_regs(rng, n=rng.randint(1, 3), lists=0.4, allow_req=False, sels=['m.f', 'n.g', 'k', 'pkg.h'])
     for c in regs:      # every parameter defaulted so that any call succeeds
       sg = c['sig']
-      sg['defaults'] = [ginm.gen_plain(rng, 1) if rng.random() < 0.85 else ['obj', 'o1'] for _ in sg['args']]
+      sg['defaults'] = [ginm.gen_plain(rng, 1) if rng.random() < 0.8 else ['obj', rng.choice(['o1', 'inf', '-inf', 'nan'])] for _ in sg['args']]
       sg['kwonly'] = [[n, d if d is not None else ['i', 0]] for n, d in sg['kwonly']]
       sg['varargs'] = False
       sg['varkw'] = False
@@ -88,9 +88,21 @@ class OperEngine(c01.CallEngine):
         key = '/'.join(sc + [c['sel'] + '.' + p])
         ops.append(['pbind', key, v] if ginm.textable(v) else ['bind', key, v])
     calls = []
+    bound_names = {}
+    for o in ops:
+      if o[0] in ('bind', 'pbind') and '.' in o[1].rpartition('/')[2] and '/' not in o[1]:
+        sel, _, p = o[1].rpartition('.')
+        bound_names.setdefault(sel, set()).add(p)
     for _ in range(rng.randint(1, 8)):
       c = rng.choice(regs)
       call = self.gen_call(rng, c)
+      for p in sorted(bound_names.get(c['sel'], ())):       # mark some root-bound parameters REQUIRED
+        if rng.random() < 0.3 and p not in [k for k, _ in call[3]]:
+          idx = c['sig']['args'].index(p) if p in c['sig']['args'] else None
+          if idx is not None and idx < len(call[2]):
+            call[2][idx] = ['req']
+          elif idx is None or idx >= len(call[2]):
+            call[3].append([p, ['req']])
       sc = ginm.gen_scope(rng, 3)
       for s in reversed(sc):
         call = ['with', s, [call]]
@@ -125,7 +137,7 @@ class OperEngine(c01.CallEngine):
       supplied = set()
       store = None
       if ctx is not None:
-        supplied = set(sg['args'][:len(ctx['args'])]) | {k for k, _ in ctx['kwargs']}
+        supplied = {a for a, v in zip(sg['args'], ctx['args']) if v != ['req']} | {k for k, v in ctx['kwargs'] if v != ['req']}
         store = ctx['config']
       else:
         store = m.calls[-1]['config'] if m.calls else []
